@@ -836,6 +836,10 @@ private:"""),
     dict(property="C03", name="ellipsoid-integer-inflation-factor", rule="R-C03-9", file="src/solver/ellipsoid.cpp",
          old="            Hm.noalias() = (n * n) / (n * n - 1) * (1 - alpha * alpha) *",
          new="            Hm.noalias() = static_cast<scalar_t>(function.size() * function.size() / (function.size() * function.size() - 1)) * (1 - alpha * alpha) *"),
+    dict(property="C01", name="lbfgs-keeps-half-the-history", rule="R-C01-6", file="src/solver/lbfgs.cpp",
+         old="            if (ss.size() > history)", new="            if (2U * ss.size() > history)"),
+    dict(property="C01", name="lbfgs-trims-only-s", rule="R-C01-6", file="src/solver/lbfgs.cpp",
+         old="                ss.pop_front();\n                ys.pop_front();", new="                ss.pop_front();"),
     # ---- C10
     dict(property="C10", name="accumulator-r1-sign", rule="R-C10-1", file="include/nano/wlearner/accumulator.h", tu="src/wlearner/accumulator.cpp",
          old="        r1(bin) -= vgrad;", new="        r1(bin) += vgrad;"),
